@@ -1652,7 +1652,9 @@ namespace bloch::runtime {
         bool prevStatic = m_inStaticContext;
         bool prevCtor = m_inConstructor;
         bool prevDtor = m_inDestructor;
-        m_currentClassCtx = staticDispatchClass ? staticDispatchClass : method->owner;
+        // Names and 'super' inside the body are resolved relative to the class that declares
+        // the method, not relative to the (possibly more derived) class it was reached through.
+        m_currentClassCtx = method->owner ? method->owner : staticDispatchClass;
         m_inStaticContext = method->isStatic;
         m_inConstructor = false;
         m_inDestructor = false;
@@ -2901,6 +2903,12 @@ namespace bloch::runtime {
                             throw BlochError(
                                 ErrorCategory::Runtime, callExpr->line, callExpr->column,
                                 "instance method '" + name + "' requires an object receiver");
+                        }
+                        // A bare call is a call on 'this': virtual methods dispatch on its class.
+                        if (method->isVirtual && receiver->cls) {
+                            auto it = receiver->cls->vtable.find(method->signature);
+                            if (it != receiver->cls->vtable.end())
+                                method = it->second;
                         }
                     }
                     return callMethod(method, staticCls, receiver, args);
